@@ -391,6 +391,19 @@ def ch_channeled(ctx, rep):
     freach = ctx.sync_reach([fw])
     sends = [(b, s) for b in freach.values() for s in ctx.prog.sites(b) if A.is_send_wrapper_call(s)]
     rep.exact("R3", "enqueue sites in the forwarder", len(sends), 1, ctx.where(fw))
+    # forwarding never gives the channel up: a rejected notification (Full under a drop policy)
+    # is not a dead subscriber - nothing on the forward path empties the sender slot, joins or
+    # reaches the release
+    rel = []
+    for b_ in freach.values():
+        bp_ = ctx.prog.bp(b_)
+        for s_ in ctx.prog.sites(b_):
+            if s_.ck in ("std::option::Option::take", "std::mem::take", "std::mem::replace") and s_.term["args"] and any(st[0] == "field" and st[2] in (A.f_ch_tx, A.f_ch_handle) for st in subterms(bp_.arg_term(s_.bb, 0))):
+                rel.append(s_)
+            if s_.ck in THREAD_JOIN:
+                rel.append(s_)
+    rep.check(not rel, "R3", "forwarder-never-releases", rel[0].where if rel else ctx.where(fw), "on_notify never empties the sender slot / joins the thread",
+              "on_notify can release the channel (%s): one rejected notification detaches a subscriber that is still registered" % sorted({x.ck.split("::")[-1] + " in " + short(x.body.path) for x in rel}))
     for b, s in sends:
         t = ctx.prog.bp(b).arg_term(s.bb, 1)
         good = t[0] == "agg" and t[1].endswith("::Action")
